@@ -161,7 +161,6 @@ def ensure_facts(cfgs, log=sys.stderr):
                     res[cfg] = meta
         # garbage-collect old fact sets (keep the 6 most recent trees) and lock files of trees that are long gone
         try:
-            import time
             for x in os.listdir(CACHE):
                 if x.startswith("lock-") and x != "lock-fixtures" and x != "lock-" + th and time.time() - os.path.getmtime(os.path.join(CACHE, x)) > 86400:
                     os.unlink(os.path.join(CACHE, x))
